@@ -127,13 +127,21 @@ def prod_over(x, names):
 
 
 def take(x, name, new, positions):
-    """x with axis ``name`` read at ``positions`` and called ``new``."""
+    """x with axis ``name`` read at ``positions`` and called ``new``.
+
+    If x already has an axis ``new`` (a renaming / index substitution onto one of the operand's own names) the result
+    is the diagonal: result[.., new=q, ..] = x[.., name=positions[q], .., new=q, ..]."""
+    positions = [int(q) for q in positions]
     ax = x.names.index(name)
+    if new != name and new in x.names:
+        ax2 = x.names.index(new)
+        assert len(positions) == x.arr.shape[ax2], ("diagonal needs one position per cell of", new)
+        arr = np.take(x.arr, np.asarray(positions, dtype=np.int64), axis=ax)
+        diag = np.diagonal(arr, axis1=ax, axis2=ax2)  # the paired axis comes last
+        names = [n for n in x.names if n != name]
+        return NA(names, np.moveaxis(diag, -1, names.index(new)))
     arr = np.take(x.arr, np.asarray(positions, dtype=np.int64), axis=ax)
     names = tuple(new if n == name else n for n in x.names)
-    if len(set(names)) != len(names):
-        # renaming onto a name the operand already has = diagonal
-        raise ValueError("renaming onto an existing axis is outside this reference")
     return NA(names, arr)
 
 
@@ -201,7 +209,8 @@ def _access(node, x):
         return take(x, var, new, range(start, stop, step))
     if k == "index":
         _, _, var, new, vals = node
-        assert len(set(vals)) == len(vals), "index substitution must be injective"
+        if new not in x.names:  # with a shared variable the pair (index value, shared cell) is injective anyway
+            assert len(set(vals)) == len(vals), "index substitution must be injective"
         return take(x, var, new, list(vals))
     raise ValueError(k)
 
